@@ -90,7 +90,17 @@ func checkC10(c *Ctx) {
 }
 
 func isOptClosure(fn *ssa.Function) bool {
-	return fn.Parent() != nil && len(fn.Params) == 1 && typeName(fn.Params[0].Type()) == "Entry" && fn.Signature.Recv() == nil
+	if fn.Parent() != nil && len(fn.Params) == 1 && typeName(fn.Params[0].Type()) == "Entry" && fn.Signature.Recv() == nil {
+		return true
+	}
+	// an option body written as a method of a small struct that bundles the option's arguments: func (o T) f(s *Entry)
+	if rv := fn.Signature.Recv(); rv != nil && typeName(rv.Type()) != "Entry" && fn.Parent() == nil && len(fn.Params) == 2 &&
+		typeName(fn.Params[1].Type()) == "Entry" && fn.Signature.Results().Len() == 0 && fn.Object() != nil && !fn.Object().Exported() {
+		if _, isStruct := rv.Type().Underlying().(*types.Struct); isStruct {
+			return true
+		}
+	}
+	return false
 }
 
 // entryMutators: methods of Entry that (transitively, through calls on their receiver) store to receiver fields.
